@@ -81,10 +81,10 @@ class Ints(Driver):
 
     def __init__(self, tier, seed):
         Driver.__init__(self, tier, seed)
-        self.dense = 1 << 17
+        self.dense = 1 << 17 if tier == "quick" else 1 << 21
         self.kmax = 80
         self.block = 4096
-        self.bound = dict(dense="every v with |v| < 2^17", powers="v = +-2^k + d, k <= %d, d in -2..2" % self.kmax)
+        self.bound = dict(dense="every v with |v| < 2^%d" % (self.dense.bit_length() - 1), powers="v = +-2^k + d, k <= %d, d in -2..2" % self.kmax)
 
     def units(self):
         for lo in range(0, self.dense, self.block):
@@ -148,9 +148,10 @@ class Encodings(Driver):
 
     def __init__(self, tier, seed):
         Driver.__init__(self, tier, seed)
-        self.four = [a + b for a in self.PREFIXES for b in self.PREFIXES] if tier == "thorough" else ["0000", "ffff", "0100", "00ff"]
+        self.four = [a + b for a in self.PREFIXES for b in self.PREFIXES]
+        self.three = list(self.PREFIXES) if tier == "quick" else ["%02x" % x for x in range(256)]
         self.bound = dict(all_lengths="every byte string of length <= 2",
-                          three="prefix in %s x all 65536 two-byte tails" % (list(self.PREFIXES),),
+                          three="prefix in %s x all 65536 two-byte tails" % (self.three if tier == "quick" else "all 256",),
                           four="prefix in %s x all 65536 two-byte tails" % (self.four,),
                           long="length 5..9: body in {00.., ff.., 0100.., 00..80, seed} x last two bytes in %s^2" % (list(self.EDGE),))
 
@@ -158,7 +159,7 @@ class Encodings(Driver):
         yield dict(fam="short")
         for hi in range(256):
             yield dict(fam="two", hi=hi)
-        for p in list(self.PREFIXES) + self.four:
+        for p in self.three + self.four:
             for hi in range(256):
                 yield dict(fam="tail", prefix=p, hi=hi)
         for n in range(5, 10):
@@ -382,7 +383,7 @@ class Truncations(Driver):
     def __init__(self, tier, seed):
         Driver.__init__(self, tier, seed)
         self.small = 600 if tier == "quick" else 1100
-        self.big = list(BIG) if tier == "thorough" else [65535, 65536]
+        self.big = list(BIG) + ([100000] if tier == "thorough" else [])
         self.bound = dict(lengths="0..%d: every cut of every form; %s: every cut of the minimal form and of PUSHDATA4" % (self.small, self.big))
 
     def units(self):
@@ -441,7 +442,7 @@ class Truncations(Driver):
                 return BAD("truncated-raises", ref, exc_str(r), n=2, clause="truncated-exception", form=form, part=part)
         elif r[3] is not False or r[1] is not None:
             return BAD("truncated-accepted", ref, "verify_minimal_data: %r" % (r,), n=2, clause=clause, form=form, part=part)
-        st, r = call(lambda: list(A.tools.get_opcodes(s)))
+        st, r = call(lambda: [next(iter(A.tools.get_opcodes(s)))])     # first instruction only: the generator does not stop at a bad one
         if st == "exc" or len(r) < 1 or r[0][1] is not None:
             return BAD("truncated-accepted", ref + "; get_opcodes yields no data", exc_str(r) if st == "exc" else repr(r)[:200], n=3,
                        clause=clause, form=form, part=part)
@@ -459,8 +460,8 @@ class Scripts(Driver):
 
     def __init__(self, tier, seed):
         Driver.__init__(self, tier, seed)
-        self.firsts = [0x01, 0x02, 0x03, 0x4B, 0x4C, 0x4D, 0x4E, 0x4F, 0x61] if tier == "thorough" else [0x02, 0x4C, 0x4D]
-        self.bound = dict(all_lengths="every byte string of length <= 2", three="first byte in %s x all 65536" % (["%02x" % x for x in self.firsts],),
+        self.firsts = list(range(0x00, 0x50)) + [0x61] if tier == "thorough" else [0x01, 0x02, 0x03, 0x4B, 0x4C, 0x4D, 0x4E]
+        self.bound = dict(all_lengths="every byte string of length <= 2", three="first byte in %s x all 65536" % ("00..4f, 61" if tier == "thorough" else ["%02x" % x for x in self.firsts],),
                           four="4d/4e/4c + three bytes from {00,01,02,4c,4d,51,ff}")
 
     def units(self):
@@ -682,8 +683,8 @@ class Assembler(Driver):
 
 DRIVERS = [Ints, Encodings, Pushes, Truncations, Scripts, Assembler]
 ASSUMPTIONS = [
-    "integers: every |v| < 2^17 and +-2^k+d for k <= 80; larger integers share the same byte-loop and are not enumerated",
-    "candidate encodings longer than 4 bytes are represented by boundary bodies, not enumerated",
+    "integers: every |v| < 2^17 (thorough 2^21) and +-2^k+d for k <= 80; larger integers share the same byte-loop and are not enumerated",
+    "candidate encodings: all of length <= 2 (thorough <= 3); longer ones by prefix families and boundary bodies, not all enumerated",
     "the consensus minimal-push rule is Bitcoin Core's CheckMinimalPush (vf.ref.scriptnum.check_minimal_push, bound to the "
     "MINIMALDATA vectors of tests/btc/data/script_tests.json); pycoin's verify_minimal_data is required to give the same "
     "verdict on every push form (acceptance of a minimal push is what the property states; refusal of a non-minimal push is "
